@@ -115,7 +115,8 @@ DomRid == [DomFull EXCEPT
     !.maxext = One("0"), !.storage = One("none"), !.upload = One("set"), !.proof = One("off"),
     !.xproxy = One("none"), !.introspect = One("on"), !.sticky = One("on"), !.comp = One("1"),
     !.oauth = One("pkce"), !.dhook = One("off"), !.aenc = One("none"),
-    !.auth = {"none", "authfail", "unavail"}, !.hook = {"none", "failfirst"}]
+    !.auth = {"none", "authfail", "unavail"}, !.hook = {"none", "failfirst"},
+    !.verb = {"GET", "POST", "OPTIONS", "DELETE"}]
 \* C22, the gate: every route x verb x authenticator x feature subset x prefix
 DomGate == [DomFull EXCEPT
     !.cors = One("off"), !.maxreq = One("0"), !.maxresp = One("0"), !.maxext = One("0"),
